@@ -188,13 +188,14 @@ func vhBuildGroupMapDeep(storage SlabStorage, addr Address, b *vDigesterBuilder,
 	return &OrderedMap{Storage: storage, root: root, digesterBuilder: b}, kvs, groupIdx
 }
 
-//vh:prop C12 C05 C09 C02 C06 C13
+//vh:prop C12 C05 C09 C02 C06 C13 C03
 //vh:param singles 2 4
 //vh:param gsize 3 3
 //vh:param symT 0 1
 func VH_C12_GroupStep() {
 	vhThreshold()
-	storage := vhNewBasicStorage()
+	logst := &vLogStorage{BasicSlabStorage: vhNewBasicStorage()}
+	storage := logst
 	addr := vhAddr(1)
 	b := &vDigesterBuilder{levels: 4}
 	if vhChoose("listmode", 2) == 1 {
@@ -218,6 +219,7 @@ func VH_C12_GroupStep() {
 	m, model, gidx := vhBuildGroupMapDeep(storage, addr, b, nsingle, gsize, gpos, external, deep)
 	vhGroupMulti = false
 	rootID := m.SlabID()
+	snap := vhSnapshotAll(logst)
 	gd0 := model[gidx[0]].key.d[0]
 	// entries the collision limit counts for the group's first-level digest
 	entries := gsize
@@ -319,8 +321,9 @@ func VH_C12_GroupStep() {
 		model = append(append([]vhKV{}, model[:i]...), model[i+1:]...)
 	}
 	vhAssert(m.SlabID() == rootID, "root id stable")
+	vhCheckDirtyMarks(logst, snap, "dirty marks")
 	vhCheckMap(m, addr, model, "post")
-	vhAssert(vhStorageSlabCount(storage) == vhMapSlabCount(storage, rootID), "no leaked or dangling slabs")
+	vhAssert(vhStorageSlabCount(logst.BasicSlabStorage) == vhMapSlabCount(storage, rootID), "no leaked or dangling slabs")
 	// fully colliding keys enumerate in insertion order (C13): in list mode the
 	// group members must appear in model order
 	if b.levels == 1 {
